@@ -131,7 +131,8 @@ def r09c(ctx, rep, cr):
 
 def r09d(ctx, rep, cr):
     rep.rule('R09d', 'inverse coverage: for each UndoEntry variant, the arm of apply_undo_entry calls the inverse of every forward '
-                     'operation class performed by the function that records that variant (slab, hash index, ordered index)')
+                     'operation class performed, on a path that goes on to a success return, by the function that records that variant '
+                     '(slab, hash index, ordered index)')
     f = rep.require_fn('R09d', cr, RE + 'apply_undo_entry')
     adt = cr.adts.get(TM + 'UndoEntry')
     if f is None or adt is None:
@@ -161,8 +162,15 @@ def r09d(ctx, rep, cr):
         if not made:
             continue
         ops = set()
+        # forward operations the undo entry has to answer for: those on a path that goes on to a success return
+        # (a compensating step on an error exit — e.g. taking a row back out when its lock cannot be had — is not one)
         for h in _bodies(cr, g.name):
-            ops |= {c.resolved.split('::')[-1] for c in _mutators(h)}
+            for c in _mutators(h):
+                if h is g or h.name == g.name:
+                    start = [c.target] if c.target is not None and c.target >= 0 else []
+                    if start and not lib.success_return_reachable(h, start):
+                        continue
+                ops.add(c.resolved.split('::')[-1])
         for v in made:
             fwd.setdefault(v, set()).update(ops)
             rep.analysed(g)
@@ -261,6 +269,44 @@ def r09g(ctx, rep, cr):
     rep.floor('R09g', 'removals from RowLockManager.locks', n, 2)
 
 
+def r09h(ctx, rep, cr):
+    rep.rule('R09h', 'the undo log is complete: every function that records an undo entry (Transaction::record_undo, '
+                     'TransactionManager::record_undo) appends it on every path to a return once the transaction was found — no entry is '
+                     'dropped or merged away (each entry carries its own statement\'s index changes; rollback replays all of them in reverse)')
+    n = 0
+    for name, f in sorted(cr.fns.items()):
+        if not name.startswith(TM) or not name.endswith('::record_undo'):
+            continue
+        defs = A.Defs(f)
+        pushes = []
+        for c in A.calls(f):
+            if re.search(r'Vec::<T, A>::push$', c.generic) and c.args and c.args[0][0] != 'k':
+                fs = A.place_fields(c.args[0][1])
+                if not fs:
+                    fs, _ = A.origin_fields(f, c.args[0][1][0], defs)
+                if any(x.endswith('Transaction.undo_log') for x in fs):
+                    pushes.append(c)
+        deleg = A.calls_to(f, ('re', r'transaction::Transaction::record_undo$'))
+        if not pushes and not deleg:
+            continue
+        n += 1
+        rep.analysed(f)
+        sinks = {c.bb for c in pushes + deleg}
+        if pushes:
+            # from the entry, a return without the push
+            R = A.reachable(f, [0], cut_blocks=sinks)
+            rets = [r for r in A.return_blocks(f) if r in R]
+            if rets:
+                rep.violation('R09h', f, 'entry-dropped', f.loc(lib.first_line(f, rets[0])),
+                              'record_undo can return without appending the entry: a later statement\'s undo information (its index '
+                              'changes) is missing at rollback, so the indexes keep pointing at values the rollback removed')
+            else:
+                rep.holds('R09h', f, 'append on every path', '')
+        else:
+            rep.holds('R09h', f, 'delegates to Transaction::record_undo', '')
+    rep.floor('R09h', 'record_undo functions', n, 1)
+
+
 def run(ctx, rep):
     cr = ctx.crate('relational_engine')
     r09a(ctx, rep, cr)
@@ -270,3 +316,4 @@ def run(ctx, rep):
     r09e(ctx, rep, cr)
     r09f(ctx, rep, cr)
     r09g(ctx, rep, cr)
+    r09h(ctx, rep, cr)
